@@ -816,6 +816,10 @@ func (env *CEnv) call(n *Node) cval {
 		u := env.term(n.Kids[0])
 		f := n.Kids[1].S
 		return cval{V: env.userField(f, u)}
+	case "query_only":
+		// query_only(t): text that comes from the request occurs in t only after a
+		// literal '?' (in the query part of a target whose path is configured)
+		return cval{V: BoolLit(queryOnly(env.term(n.Kids[0])))}
 	case "tainted":
 		// tainted(t, src): src occurs in t outside a sanitiser
 		return cval{V: BoolLit(taintOccurs(env.term(n.Kids[0]), env.term(n.Kids[1])))}
@@ -890,7 +894,7 @@ func (env *CEnv) call(n *Node) cval {
 var specSigs = map[string]string{
 	"hash_ok": SBool, "sha512": SStr, "hash_of": SStr, "localize": SStr, "totp_ok": SBool,
 	"b64enc!std": SStr, "b64enc!url": SStr, "b64dec!std": SStr, "b64dec!url": SStr,
-	"time_format": SStr, "time_parse": SInt, "time_parse_ok": SBool, "fresh_error": SBool,
+	"json_ok": SBool, "time_format": SStr, "time_parse": SInt, "time_parse_ok": SBool, "fresh_error": SBool,
 	"regex_match": SBool, "count_upper": SInt, "count_lower": SInt, "count_numeric": SInt, "count_symbols": SInt, "count_whitespace": SInt,
 	"str_lower": SStr, "filepath_base": SStr, "str_split": SArr(SInt, SStr), "str_split_len": SInt, "str_join": SStr, "itoa": SStr, "atoi": SInt,
 }
@@ -912,6 +916,58 @@ func (env *CEnv) userField(field string, u *Term) *Term {
 	}
 	arr := env.ex.userHeapGet(env.st, env.curHeap(), field, sort)
 	return Select(arr, u)
+}
+
+// fromRequest: the term mentions something the client supplied.
+func fromRequest(t *Term) bool {
+	if t.Sym {
+		op := strings.Trim(t.Op, "|")
+		if op == "form_value" || op == "cs_get" || strings.HasPrefix(op, "f!url.URL.") || strings.HasPrefix(op, "f!http.Request.") || strings.HasPrefix(op, "val!Get") || op == "header_get" {
+			return true
+		}
+	}
+	for _, a := range t.Args {
+		if fromRequest(a) {
+			return true
+		}
+	}
+	return false
+}
+
+func queryOnly(t *Term) bool {
+	var segs []*Term
+	var flat func(t *Term)
+	flat = func(t *Term) {
+		switch {
+		case !t.Sym && t.Op == "str.++":
+			for _, a := range t.Args {
+				flat(a)
+			}
+		case t.Sym && strings.Trim(t.Op, "|") == "path_join":
+			for i, a := range t.Args {
+				if i > 0 {
+					segs = append(segs, StrLit("/"))
+				}
+				flat(a)
+			}
+		default:
+			segs = append(segs, t)
+		}
+	}
+	flat(t)
+	seenQ := false
+	for _, s := range segs {
+		if lit, ok := s.StrVal(); ok {
+			if strings.Contains(lit, "?") {
+				seenQ = true
+			}
+			continue
+		}
+		if fromRequest(s) && !seenQ {
+			return false
+		}
+	}
+	return true
 }
 
 // taintOccurs reports whether src occurs as a subterm of t outside the
